@@ -803,7 +803,7 @@ int vp_fcntl(int fd, int cmd, ...)
   int arg = va_arg(ap, int);
   va_end(ap);
   vp_calls_total++;
-  VP_TRACE("fcntl(%d, %s, 0x%x)", fd, cmd == F_GETFD ? "F_GETFD" : cmd == F_SETFD ? "F_SETFD" : cmd == F_GETFL ? "F_GETFL" : "F_SETFL", arg);
+  VP_TRACE("fcntl(%d, %s, 0x%x)", fd, cmd == F_GETFD ? "F_GETFD" : cmd == F_SETFD ? "F_SETFD" : cmd == F_GETFL ? "F_GETFL" : cmd == F_SETFL ? "F_SETFL" : "F_DUPFD[_CLOEXEC]", arg);
   if (!vp_fd_ok(fd)) {
     errno = EBADF; /* the ordinary answer for a closed descriptor, not a fault */
     return -1;
@@ -829,6 +829,31 @@ int vp_fcntl(int fd, int cmd, ...)
       }
       vp_of_nb[o] = (arg & O_NONBLOCK) != 0;
       return 0;
+    case F_DUPFD:
+    case F_DUPFD_CLOEXEC: {
+      /* lowest free descriptor >= arg, referring to the same open file description */
+      if (vp_fault()) {
+        return vp_fail(vp_errno_any(true));
+      }
+      if (arg < 0 || arg >= VP_NFD) {
+        return vp_fail(EINVAL);
+      }
+      int n = -1;
+      for (int i = VP_NFD - 1; i >= 0; i--) {
+        if (i >= arg && !vp_fd_open[i]) {
+          n = i;
+        }
+      }
+      if (n < 0) {
+        return vp_fail(EMFILE);
+      }
+      vp_fd_open[n] = true;
+      vp_fd_cx[n] = cmd == F_DUPFD_CLOEXEC;
+      vp_fd_ofd[n] = o;
+      vp_fd_own[n] = vp_fd_own[fd];
+      vp_of_refs[o]++;
+      return n;
+    }
     default:
       VP_MODEL_ASSERT(false, "fcntl command not modelled");
       return vp_fail(EINVAL);
